@@ -48,6 +48,7 @@ type Knobs struct {
 	PostAccept   int  // bytes accepted after the handler returned before the request body is closed (HTTP/2)
 	ExtraHeaders bool
 	NoFlusher    bool  // the handler's ResponseWriter is not an http.Flusher (a wrapping middleware hides it)
+	H1Close      bool  // HTTP/1.1: the server closes the connection when request bytes keep coming after its answer (see runPump)
 	UpScript     []int // scripted read sizes (enumeration worlds); nil: use UpFrag
 	DownScript   []int
 	OneByteMax   int // one-byte delivery applies only to the first OneByteMax bytes of a direction (0: all)
@@ -86,6 +87,8 @@ type Call struct {
 	urlSeen      string
 	urlSet       bool
 	requestStart time.Time
+	readyStep    int  // 1 + scheduler step at which the library's request goroutine finished (0: not yet)
+	wroteLate    bool // a Write was entered at a later step than that: the library had the response in hand
 	doCount      int
 	bodyClose    int
 	hits         [NumPoints]int
@@ -224,12 +227,42 @@ func Yield(ctx context.Context, point string) {
 		}
 		c.S.GateOpt(c.ID+"/y/"+point, nil, flags)
 	}
+	switch point {
+	case "request.finish":
+		c.noteReady(c.S.StepNow())
+	case "write.enter":
+		c.noteWrite(c.S.StepNow())
+	}
 	if point == "write.enter" || point == "closewrite.enter" {
 		// the first Write / CloseWrite is what starts the request: the instant
 		// it gets past this point is when the request headers are final
 		c.noteRequestStart(time.Now())
 	}
 }
+
+//go:norace
+//go:noinline
+func (c *Call) noteReady(step int) {
+	if c.readyStep == 0 {
+		c.readyStep = step + 1
+	}
+}
+
+//go:norace
+//go:noinline
+func (c *Call) noteWrite(step int) {
+	if c.readyStep != 0 && step+1 > c.readyStep {
+		c.wroteLate = true
+	}
+}
+
+// WroteAfterResponse: the library entered a Write at a later scheduler step
+// than the one in which its request goroutine finished, that is, when it
+// already had the response (or the failure of Do) in hand.
+//
+//go:norace
+//go:noinline
+func (c *Call) WroteAfterResponse() bool { return c.wroteLate }
 
 //go:norace
 //go:noinline
@@ -248,6 +281,7 @@ func (c *Call) RequestStart() time.Time { return c.requestStart }
 
 // Exchange is one HTTP request/response pair.
 type Exchange struct {
+	ConnClosedOnUpload  bool // HTTP/1.1: the server closed the connection on a client that kept uploading after the answer
 	everFlushed         bool // the handler called Flush
 	written             int  // bytes the handler wrote
 	snapTrailers        bool // the headers as of the first write announced trailers (Trailer header or TrailerPrefix keys)
@@ -559,6 +593,11 @@ func (e *Exchange) runPump() {
 				size = space
 			}
 		}
+		// Sampled before the read, while every other goroutine is parked: writes
+		// are sequential, so if a late Write has been entered by now, every
+		// earlier one has been consumed, and what this read returns is the late
+		// one's (or a later one's).
+		lateWriter := e.Call.WroteAfterResponse()
 		e.mu.Lock()
 		e.pumpInRead = true
 		e.updateDeaf()
@@ -586,8 +625,22 @@ func (e *Exchange) runPump() {
 				e.mu.Lock()
 				e.postSeen += n
 				over := e.Call.K.HTTP2 && !e.Call.K.Lazy && e.postSeen > e.Call.K.PostAccept
+				h1close := !e.Call.K.HTTP2 && e.Call.K.H1Close && e.RespReturned && lateWriter
+				if h1close {
+					// net/http's HTTP/1.1 server reads on for a bounded amount (256 KiB)
+					// after the handler is done and then closes the connection; the
+					// client transport's write fails, it closes its end, and whatever
+					// of the response has not been read yet is gone. Where that bound
+					// falls is the stub's choice - but it only ever lets it fall on
+					// bytes written by a client that already had the answer: a loss
+					// before that is nobody's fault and is not simulated.
+					e.ConnClosedOnUpload = true
+					if !e.Down.Consumed() {
+						e.Down.Abort(errors.New("read tcp: use of closed network connection"))
+					}
+				}
 				e.mu.Unlock()
-				if over {
+				if over || h1close {
 					e.closeReq()
 					return
 				}
